@@ -169,6 +169,12 @@ where
     W: Write + Send,
 {
     fn drop(&mut self) {
+        // Wait for our turn even if nothing was written through this writer:
+        // otherwise dropping it would let the following responses overtake
+        // the ones that are still pending before it.
+        if let Some(v) = self.trigger.take() {
+            v.recv().ok();
+        }
         self.on_finish.send(()).ok();
     }
 }
